@@ -87,7 +87,12 @@ def build(targets=None, pregen=None):
 
 
 def vo_exists(rel):
-    return os.path.exists(os.path.join(COQ, rel[:-2] + ".vo"))
+    """the .vo exists AND is up to date with respect to its sources (make -q)"""
+    vo = rel[:-2] + ".vo"
+    if not os.path.exists(os.path.join(COQ, vo)):
+        return False
+    rc, _ = sh(["make", "-q", vo], 120, cwd=COQ)
+    return rc == 0
 
 
 # ----------------------------------------------------------------------------- audit
@@ -585,7 +590,15 @@ def first_diff(a, b, path=()):
 
 
 def setup():
-    ok, out = build()
+    def pregen_all():
+        for f in sorted(glob.glob(os.path.join(HARNESS, "props", "c*.py"))):
+            mod = importlib.import_module("props." + os.path.basename(f)[:-3])
+            if hasattr(mod, "pregen"):
+                try:
+                    mod.pregen(REPO, COQ)
+                except Exception as e:
+                    print("pregen of %s failed: %r" % (mod.ID, e))
+    ok, out = build(pregen=pregen_all)
     print(out[-3000:])
     if not ok:
         print("setup: coq build failed")
